@@ -809,3 +809,100 @@ def c05i(ctx):
                 ctx.check(ok, construct, 'every normal path from the write to the return passes commit()', fn, call,
                           fail='a normal path from this write statement to the return does not pass commit(): the '
                                'change is lost when the connection is closed (%s)' % ' '.join(stmts[0].replace(HOLE, '?').split())[:70])
+
+
+# ------------------------------------------------------------------ C05.j
+SLOT_FUNCS = ('tile_offset', 'update_tile_offset', 'remove_tile_offset', '_tile_index_offset', '_tile_idx_offset',
+              '_tile_offset_size', '_update_tile_offset')
+
+
+@rule('C05.j', floor=10)
+def c05j(ctx):
+    """writer and reader address an index slot with the same (column, row) argument order; slot coefficients are positive"""
+    from ..util import poly_coeffs
+    repo = ctx.repo
+    mod = repo.mod(COMPACT)
+    for cname in ('BundleV1', 'BundleV2', 'BundleIndexV1'):
+        cls = repo.cls('%s:%s' % (COMPACT, cname))
+        for st in cls.node.body:
+            if not isinstance(st, ast.FunctionDef):
+                continue
+            fn = ctx.fn('%s:%s.%s' % (COMPACT, cname, st.name))
+            defs = Defs(fn.node)
+            for c in sorted([x for x in fn.walk() if isinstance(x, ast.Call) and simple_name(x) in SLOT_FUNCS], key=order_key):
+                args = [a for a in c.args if not (isinstance(a, ast.Name) and a.id in ('fh',))][:2]
+                if len(args) < 2:
+                    continue
+
+                def role(e):
+                    if isinstance(e, ast.Name):
+                        for v, sel in defs.of(e.id):
+                            if isinstance(sel, int) and is_call(v, 'self._rel_tile_coord'):
+                                return sel
+                            if sel == 'elem' and is_call(v, 'range') and v.args:
+                                t = unparse(v.args[0])
+                                return 0 if 'WIDTH' in t else 1 if 'HEIGHT' in t else None
+                        if e.id in fn.params:
+                            p = [q for q in fn.params if q != 'self' and q != 'fh']
+                            return p.index(e.id) if e.id in p[:2] else None
+                    return None
+                r = [role(a) for a in args]
+                k = sum(1 for o in ctx.obs if o.construct.startswith('%s.%s:slot-args' % (cname, st.name)))
+                ctx.check(r == [0, 1], '%s.%s:slot-args%d' % (cname, st.name, k),
+                          '%s(...) receives (column, row) in that order' % simple_name(c), fn, c,
+                          fail='%s(%s) does not receive (column, row) of _rel_tile_coord in order: writer and reader address '
+                               'different index slots' % (simple_name(c), ', '.join(unparse(a) for a in args)))
+    for cname, fname in (('BundleIndexV1', '_tile_index_offset'), ('BundleV2', '_tile_idx_offset')):
+        f = ctx.fn('%s:%s.%s' % (COMPACT, cname, fname))
+        r = returns_of(f.node)
+        c0, co = poly_coeffs(r[0].value, ['x', 'y'], repo, mod)
+        ctx.check(co['x'] > 0 and co['y'] > 0 and c0 > 0, '%s.%s:positive' % (cname, fname), 'slot offsets grow with column and row and start after the header', f,
+                  fail='index slot formula has non-positive coefficients (%s, %s, %s): slots run into the header' % (c0, co['x'], co['y']))
+
+
+@rule('C05.k', floor=3)
+def c05k(ctx):
+    """dimension directory = key + '-' + value looked up by that key; the shared single-colour file is written before it is linked"""
+    fn = ctx.fn(PATH + ':dimensions_part')
+    lookups = [x for x in fn.walk_all() if (is_call(x, 'dims.get') or is_call(x, 'dimensions.get')) and x.args]
+    lam = [x for x in fn.walk_all() if isinstance(x, ast.Lambda)]
+    ok = bool(lookups)
+    for x in lookups:
+        k = x.args[0]
+        owner = enclosing(x, ast.Lambda)
+        ok = ok and isinstance(k, ast.Name) and owner is not None and k.id == owner.args.args[0].arg
+    ctx.check(ok, 'dimensions_part:value-of-key', 'each directory name pairs a dimension key with the value looked up by that key', fn,
+              fail='the dimension value is not looked up by the key of the same directory name: different dimension values share a directory')
+    srt = [x for x in fn.walk() if is_call(x, 'sorted')]
+    ctx.check(len(srt) >= 2, 'dimensions_part:sorted-keys', 'keys are sorted (the directory does not depend on the parameter order)', fn)
+    sc = ctx.fn(FILE + ':FileCache._store_single_color_tile')
+    g = sc.cfg
+    stores = g.find(lambda x: is_call(x, 'self._store') and len(x.args) >= 2 and unparse(x.args[1]) == 'real_tile_loc')
+    links = g.find(lambda x: is_call(x, 'os.link', 'os.symlink'))
+    ok = bool(stores) and bool(links)
+    for n, x in stores:
+        ok = ok and g.guarded(n, lambda at: at.mentions(lambda y: is_call(y, 'os.path.exists') and unparse(y.args[0]) == 'real_tile_loc'), False)
+    # on the "does not exist" edge the store lies before every link
+    edges = g.guard_edges(lambda at: at.mentions(lambda y: is_call(y, 'os.path.exists') and y.args and unparse(y.args[0]) == 'real_tile_loc'), False)
+    for s, d in edges:
+        for n, x in links:
+            if stores and g.reaches_avoiding(s, n, avoid={stores[0][0]}) and d == stores[0][0]:
+                pass
+        ok = ok and all(not _reach_from(g, d, n, {m for m, _ in stores}) for n, x in links)
+    ctx.check(ok, 'FileCache._store_single_color_tile:real-tile-before-link', 'a missing shared single-colour file is written before a link to it is created', sc,
+              fail='a link to the shared single-colour file can be created although the file was never written (dangling link: the tile reads as missing)')
+
+
+def _reach_from(g, start, target, avoid):
+    if start in avoid:
+        return False
+    seen, stack = set(), [start]
+    while stack:
+        k = stack.pop()
+        if k == target:
+            return True
+        if k in seen or k in avoid:
+            continue
+        seen.add(k)
+        stack.extend(g.succ[k])
+    return False
